@@ -103,6 +103,10 @@ class Engine:
         intrinsics.register(self)
         for name, g in prog.globals.items():
             self.globals[name] = Obj(thaw(self.zero(g['type'])), 0, tag=name)
+        # well-known sentinel errors of packages whose init is not executed: distinct opaque error values
+        for name in ('os.ErrDeadlineExceeded', 'os.ErrClosed', 'net.ErrClosed', 'io.ErrShortWrite', 'io.ErrClosedPipe'):
+            if name in self.globals and self.globals[name].v is None:
+                self.globals[name].v = Iface(intrinsics.OPQ, OpaqueErr(name))
         # path state
         self.solver = None
         self.prefix = []
@@ -116,6 +120,8 @@ class Engine:
         self.callstack = []
         self.clock_last = None
         self.path_notes = []
+        self.mutexes = {}
+        self.timers_pending = False
 
     # ------------------------------------------------------------------ types
     def under(self, tid):
@@ -709,8 +715,10 @@ class Engine:
         self.ctx_children = {}
         self.vtime = 0
         self.timer_log = []
+        self.timers_pending = False
         self.chan_hooks = {}
         self.wg_counters = {}
+        self.mutexes = {}
         self.sched = None
         self.epoch += 1
         outcome = 'ok'
@@ -1626,6 +1634,12 @@ class Engine:
         mine = ch.sent
         S.block(lambda: ch.recvd >= mine, what='send on unbuffered channel (no receiver)')
 
+    def timer_elapsed(self, d):
+        """a wait on a time.Timer is over: log its duration, advance virtual time"""
+        self.timer_log.append(d)
+        if type(d) is int and d > 0:
+            self.vtime += d
+
     def sched_recv(self, ch, commaok, elem_t):
         S = self.sched
         if ch is None:
@@ -1635,6 +1649,8 @@ class Engine:
             self.chan_touch(ch)
             v = ch.items.pop(0)
             ch.recvd += 1
+            if ch.timer_d is not None:
+                self.timer_elapsed(ch.timer_d)
             return (v, True) if commaok else v
         z = self.zero(elem_t)
         return (z, False) if commaok else z
@@ -1674,6 +1690,8 @@ class Engine:
             self.chan_touch(ch)
             v = ch.items.pop(0)
             ch.recvd += 1
+            if ch.timer_d is not None:
+                self.timer_elapsed(ch.timer_d)
             return (v, True) if commaok else v
         if ch.closed:
             z = self.zero(elem_t)
